@@ -779,7 +779,8 @@ GRIget_image_list(int32 file_id, gr_info_t *gr_ptr)
                         if (((img_info[i].offset != INVALID_OFFSET && img_info[i].offset != 0) &&
                              img_info[i].offset == img_info[j].offset) ||
                             (img_info[i].offset == 0 &&
-                             (special_type == SPECIAL_LINKED || special_type == SPECIAL_CHUNKED))) {
+                             (special_type == SPECIAL_LINKED || special_type == SPECIAL_CHUNKED ||
+                              special_type == SPECIAL_EXT))) {
                             /* eliminate the oldest tag from the match */
                             switch (img_info[i].img_tag) {
                                 case DFTAG_RI:
